@@ -52,6 +52,7 @@ fn main() {
     let worker = std::thread::Builder::new().stack_size(1 << 28).spawn(|| {
         let stdin = std::io::stdin();
         let out = std::io::stdout();
+        let mut last_spin: Option<String> = None;
         for (seq, line) in stdin.lock().lines().enumerate() {
             let Ok(line) = line else { break };
             let f: Vec<&str> = line.splitn(7, '\t').collect();
@@ -65,9 +66,23 @@ fn main() {
             let _ = f[5];
             let src = unescape(f[6]);
             JOB_SEQ.store(seq as u64, Ordering::SeqCst);
+            // the probed twin of an input runs first; if its probes proved a livelock / runaway recursion, the
+            // twins without probes would only spin until the watchdog fires: they are skipped
+            let key = format!("{}|{}", module.trim_end_matches('p').split('v').next().unwrap_or(""), id.split_once('|').map_or("", |x| x.1));
+            if module.ends_with('p') {
+                last_spin = None;
+            } else if last_spin.as_deref() == Some(key.as_str()) {
+                let mut o = out.lock();
+                let _ = writeln!(o, "{{\"id\":\"{}\",\"skipped\":\"probed twin proved non-termination on this input\"}}", id);
+                let _ = o.flush();
+                continue;
+            }
             JOB_STARTED_MS.store(now_ms(), Ordering::SeqCst);
             let res = run(module, id, entry, seed, pm, am, &src);
             JOB_STARTED_MS.store(0, Ordering::SeqCst);
+            if module.ends_with('p') && (res.contains("VERIF-LIVELOCK") || res.contains("VERIF-RECURSION")) {
+                last_spin = Some(key);
+            }
             let mut o = out.lock();
             let _ = writeln!(o, "{res}");
             let _ = o.flush();
